@@ -1,6 +1,7 @@
 import FormulaeModel.Driver.Base
 import FormulaeModel.Driver.C04
 import FormulaeModel.Spec.C05
+import FormulaeModel.Model.Encoding
 namespace FormulaeModel.Driver.C05
 open Lean FormulaeModel FormulaeModel.Driver FormulaeModel.Design FormulaeModel.Driver.C04
 
@@ -26,8 +27,39 @@ def specC05 (j : Json) : Json :=
         | .error er => errTag er)
       Json.mkObj [("terms", Json.arr terms.toArray)]
 
+def termDescOfJson (j : Json) : Option Encoding.TermDesc :=
+  if getBool j "i" then some .intercept else
+  match (getArr j "c").filterMap (fun c =>
+    match c with
+    | .arr #[.str n, .str k, .bool isCall] =>
+      some (⟨n, if k == "c" then Encoding.Kind.categoric else Encoding.Kind.numeric, isCall⟩ : Encoding.Comp)
+    | _ => none) with
+  | c :: cs => some (.term c cs)
+  | [] => none
+
+/-- the rule the statement prescribes for the effects of one grouping factor: the common-effects
+redundancy analysis (C03) of the effect family; `agrees` = it yields exactly one coding per term
+and that coding is the one the implementation used -/
+def ruleOp (j : Json) : Json :=
+  let fam := (getArr j "family").filterMap termDescOfJson
+  let used : List (String × List (String × Bool)) := (getArr j "used").filterMap (fun t =>
+    match t with
+    | .arr #[.str n, .arr fl] => some (n, fl.toList.filterMap (fun p =>
+        match p with | .arr #[.str c, .bool b] => some (c, b) | _ => none))
+    | _ => none)
+  match Encoding.encodingBools fam with
+  | .error _ => Json.mkObj [("agrees", false), ("why", "analysis error")]
+  | .ok enc =>
+    let agrees := used.all (fun (name, flags) =>
+      match Contrasts.Dict.get? enc name with
+      | some [coding] => flags.all (fun (c, b) => (Contrasts.Dict.get? coding c).getD false == b)
+      | some _ => false                       -- none or several codings: helper terms would be needed
+      | none => flags.all (fun p => p.2 == false))
+    Json.mkObj [("agrees", agrees), ("has_intercept", fam.any Encoding.TermDesc.isIntercept)]
+
 def handle (op : String) (j : Json) : Option Json :=
   match op with
+  | "c05_rule" => some (ruleOp j)
   | "c05_spec" => some (specC05 j)
   | _ => none
 
